@@ -160,6 +160,9 @@ EqValue(A, B) == Limits(A.U) = Limits(B.U) /\ SameFunction(A, B)
 (* S.fit_curve(C): D on V.  polynomial source and target.  err: returned error    *)
 FitCurveClauses(C, V, nodes, D, err) ==
   IF ~(ConsistentCurve(D) /\ D.U = V) THEN {"result_consistent"}
+  ELSE IF ~(SmallCurve(D, 400) /\ Abs(err[1]) <= 100000 /\ err[2] <= 100000)
+  THEN {"?fit_clauses_numbers_too_large"} \cup
+       Fails({<<"interpolates_nodes", \A i \in DOMAIN nodes : Eval(D, nodes[i]) = Eval(C, nodes[i])>>})
   ELSE
   LET inS == Refines(C.U, V) /\ Representable(C, V)
       l2  == L2Sq(C, D)
